@@ -12,6 +12,15 @@ BASE_NOTE = (
 
 # property -> (category, text, technique, design_ref, extra note)
 CLAIMS = {
+    "C22": (
+        "proof",
+        "Over an explicit pathlib model (a path has a name, a suffix, is absolute or not, may have a '..' part; base.joinpath(q) stays inside base iff q is relative and '..'-free; exists/is_file/resolve/read may raise OSError; with_suffix raises ValueError on an empty name), "
+        "FileSystemLoader.resolve_path (with and without symlink rejection), PackageLoader._resolve_path and PackageLoader.get_source are verified for every template name: a returned/read path is join(base, q) with q relative and '..'-free, "
+        "symlink rejection resolves before accepting, and nothing but TemplateNotFoundError escapes. A bounded sandbox check (decoy files and symlinks outside the search path, 6 loader configurations, sync/async) stands in for the real file system.",
+        "contract-based deductive verification over an assumed pathlib model (z3, uninterpreted path attributes) + bounded contract check",
+        "DESIGN.md section 4 C22",
+        "The file system itself is opaque; two search paths per loader (the loop is uniform).",
+    ),
     "C23": (
         "other",
         "Contracts on the real CachingLoaderMixin: cache_key injectivity on (namespace, name) as a two-run obligation over all strings (z3 strings); _check_cache against the cache invariant with the LRU map replaced by its (C24-verified) contract: "
